@@ -25,6 +25,8 @@ An expression is a JSON-serialisable nested list ``[op, arg, ...]``:
     ['neg', E]  -E               ['pos', E]  +E     ['pow', E, n]  E ** n (iterated composition)
     ['add', E, F]  E + F         ['sub', E, F]  E - F
     ['comp', E, F] E * F   and   ['matmul', E, F]  E @ F      E(F(x))
+    ['lsmatmul', a, E] a @ E, ['rsmatmul', E, a] E @ a, ['lvmatmul', v, E] v @ E,
+    ['rvmatmul', E, v] E @ v     ("See Operator.__mul__ / __rmul__": same meaning as with *)
     ['pwprod', E, F]  OperatorPointwiseProduct(E, F)          E(x) * F(x)
 
 Scalars are named by string tokens (JSON has no complex numbers); vectors by pool names.
@@ -208,7 +210,12 @@ OPS = {
     'neg': ('E',), 'pos': ('E',), 'pow': ('E', 'N'),
     'add': ('E', 'E'), 'sub': ('E', 'E'), 'comp': ('E', 'E'), 'matmul': ('E', 'E'),
     'pwprod': ('E', 'E'),
+    'lsmatmul': ('S', 'E'), 'rsmatmul': ('E', 'S'), 'lvmatmul': ('V', 'E'),
+    'rvmatmul': ('E', 'V'),
 }
+# `@` is documented as a synonym of `*`
+ALIAS = {'matmul': 'comp', 'lsmatmul': 'lsmul', 'rsmatmul': 'rsmul', 'lvmatmul': 'lvmul',
+         'rvmatmul': 'rvmul'}
 
 
 def children(e):
@@ -224,11 +231,11 @@ def size(e):
 
 def typeof(e):
     """(dom, ran, structurally linear, exact arithmetic) or None when ill-typed."""
-    op = e[0]
+    op = ALIAS.get(e[0], e[0])
     if op == 'L':
         s = LEAVES[e[1]]
         return (s['dom'], s['ran'], s['lin'], s['exact'])
-    roles = OPS[op]
+    roles = OPS[e[0]]
     ts = {}
     for i, r in enumerate(roles):
         if r == 'E':
@@ -276,7 +283,7 @@ def typeof(e):
         return (d1, r1, l1 and l2, x1 and x2) if (d1 == d2 and r1 == r2) else None
     if op == 'pwprod':
         return (d1, r1, False, x1 and x2) if (d1 == d2 and r1 == r2) else None
-    if op in ('comp', 'matmul'):
+    if op == 'comp':
         return (d2, r1, l1 and l2, x1 and x2) if r2 == d1 else None
     raise KeyError(op)
 
@@ -309,7 +316,7 @@ def ref_eval(e, x, tr=None):
     accumulates the largest magnitude met on the way and whether every intermediate value is
     a small dyadic rational (then no rounding can have occurred, in any association order:
     products of two such numbers need at most 48 bits)."""
-    op = e[0]
+    op = ALIAS.get(e[0], e[0])
     if op == 'L':
         y = LEAVES[e[1]]['ref'](x)
     elif op == 'lsmul':
@@ -352,7 +359,7 @@ def ref_eval(e, x, tr=None):
         y = ref_eval(e[1], x, tr) - ref_eval(e[2], x, tr)
     elif op == 'pwprod':
         y = ref_eval(e[1], x, tr) * ref_eval(e[2], x, tr)
-    elif op in ('comp', 'matmul'):
+    elif op == 'comp':
         y = ref_eval(e[1], ref_eval(e[2], x, tr), tr)
     else:
         raise KeyError(op)
@@ -400,6 +407,7 @@ FULL = {
     'plain': ['neg', 'pos'],
     'pows': [1, 2, 3],
     'binary': ['add', 'sub', 'comp', 'matmul', 'pwprod'],
+    'at': True,
 }
 # reduced pool for the deepest level: one representative per (type, linear?, class family)
 REDUCED = {
@@ -409,6 +417,7 @@ REDUCED = {
     'plain': ['neg'],
     'pows': [2],
     'binary': ['add', 'sub', 'comp', 'pwprod'],
+    'at': False,
 }
 POOLS = {'full': FULL, 'red': REDUCED}
 
@@ -433,8 +442,12 @@ def roots_over(c, pool):
     for a in pool['scalars']:
         if in_field(a, Fr):
             out.append(['lsmul', a, c])
+            if pool['at']:
+                out.append(['lsmatmul', a, c])
         if in_field(a, Fd):
             out.append(['rsmul', c, a])
+            if pool['at']:
+                out.append(['rsmatmul', c, a])
         if a != '0' and in_field(a, Fd) and in_field(a, Fr):
             out.append(['div', c, a])
         if in_field(a, Fr):
@@ -446,8 +459,12 @@ def roots_over(c, pool):
         vs = VECS[v][0]
         if (ran in FIELDS and FIELD_OF[vs] == ran) or vs == ran:
             out.append(['lvmul', v, c])
+            if pool['at']:
+                out.append(['lvmatmul', v, c])
         if vs == dom:
             out.append(['rvmul', c, v])
+            if pool['at']:
+                out.append(['rvmatmul', c, v])
         if vs == ran:
             out.append(['addv', c, v])
             out.append(['vadd', v, c])
@@ -468,6 +485,19 @@ def roots_over(c, pool):
                 if not c_is_leaf and ld == ran:
                     out.append([op, leaf, c])
     return out
+
+
+def unspecified(e):
+    """Applications the documentation leaves open (counted, not judged, never used as operands):
+    right scalar multiplication / division of an operator defined on a *field*.
+    `Operator.__mul__`: "scalar: The `Operator.domain` of this operator must be a `LinearSpace`",
+    class `OperatorRightScalarMult`: "well-defined only if ``op.domain`` is a `LinearSpace`",
+    but its constructor: "Its `domain` must be a `LinearSpace` or `Field`"."""
+    op = ALIAS.get(e[0], e[0])
+    if op in ('rsmul', 'div'):
+        t = typeof(e)
+        return t is not None and t[0] in FIELDS
+    return False
 
 
 def pairs_with(c, partners, pool):
@@ -491,7 +521,7 @@ def level(pool, n):
     for _ in range(n):
         nxt = []
         for c in cur:
-            nxt.extend(roots_over(c, pool))
+            nxt.extend(r for r in roots_over(c, pool) if not unspecified(r))
         cur = nxt
     return cur
 
@@ -504,16 +534,17 @@ OVERLOAD = {
     'ssub': 'a-A', 'lvmul': 'v*A', 'rvmul': 'A*v', 'addv': 'A+v', 'vadd': 'v+A', 'subv': 'A-v',
     'vsub': 'v-A', 'neg': '-A', 'pos': '+A', 'pow': 'A**n', 'add': 'A+B', 'sub': 'A-B',
     'comp': 'A*B', 'matmul': 'A@B', 'pwprod': 'PointwiseProduct(A,B)',
+    'lsmatmul': 'a@A', 'rsmatmul': 'A@a', 'lvmatmul': 'v@A', 'rvmatmul': 'A@v',
 }
 
 
 def overload(e):
     """Name of the overload at the root; a zero scalar factor is a separate arm."""
     s = OVERLOAD[e[0]]
-    if e[0] == 'lsmul' and e[1] == '0':
-        s = '0*A'
-    if e[0] == 'rsmul' and e[2] == '0':
-        s = 'A*0'
+    if e[0] in ('lsmul', 'lsmatmul') and e[1] == '0':
+        s = s.replace('a', '0')
+    if e[0] in ('rsmul', 'rsmatmul') and e[2] == '0':
+        s = s.replace('a', '0')
     return s
 
 
@@ -540,19 +571,6 @@ def marker(e):
         if s['dom'] in FIELDS:
             flags.add('Fdom')
     return ''.join('/' + f for f in sorted(flags))
-
-
-def form(e):
-    """Structural site name: combinators kept, scalars reduced to a class (0 / j / plain),
-    vectors dropped, leaves reduced to their kind."""
-    op = e[0]
-    if op == 'L':
-        return LEAVES[e[1]]['kind']
-    tag = op
-    for a, r in zip(e[1:], OPS[op]):
-        if r == 'S':
-            tag += '0' if a == '0' else ('j' if a == '1j' else '')
-    return '%s(%s)' % (tag, ','.join(form(c) for c in children(e)))
 
 
 def src(e, top=True):
@@ -584,6 +602,10 @@ def src(e, top=True):
         'sub': lambda: '%s - %s' % (E(e[1]), E(e[2])),
         'comp': lambda: '%s * %s' % (E(e[1]), E(e[2])),
         'matmul': lambda: '%s @ %s' % (E(e[1]), E(e[2])),
+        'lsmatmul': lambda: '%s @ %s' % (S(e[1]), E(e[2])),
+        'rsmatmul': lambda: '%s @ %s' % (E(e[1]), S(e[2])),
+        'lvmatmul': lambda: '%s @ %s' % (V(e[1]), E(e[2])),
+        'rvmatmul': lambda: '%s @ %s' % (E(e[1]), V(e[2])),
         'pwprod': lambda: 'odl.OperatorPointwiseProduct(%s, %s)' % (E(e[1]), E(e[2])),
     }[op]()
     return '(%s)' % fmt
